@@ -118,8 +118,6 @@ gnuattrspec(struct attr *a, enum attrkind allowed)
 {
 	if (!consume(T__ATTRIBUTE__))
 		return false;
-	while (parseattr(a, allowed, PREFIXGNU) || consume(TCOMMA))
-		;
 	expect(TLPAREN, "after '__attribute__' to begin attribute specifier");
 	expect(TLPAREN, "after '__attribute__' to begin attribute specifier");
 	while (parseattr(a, allowed, PREFIXGNU) || consume(TCOMMA))
